@@ -95,7 +95,7 @@ def handle (args out : List String) : Verdict :=
   -- F bytes to a client that reads, S bytes to one that stalls past the client timeout: the server must have given up (S < F)
   | ["cstall", _, _] => handleStall out
   | ["cstallhttp", _, _] => handleStall out
-  | ["ctcp", k, payload] => handleTcp k (if payload = "idle" then "none" else payload) out
+  | ["ctcp", k, payload] => handleTcp k (if payload = "idle" || payload = "idle0" then "none" else payload) out
   -- measurement: `crypt.Encrypt` under the concurrency of the connection goroutines (no model: the oracle is "no panic, every round trip exact")
   | ["encpar", _, _] =>
     match out with
